@@ -28,7 +28,7 @@ ASSUMPTIONS = [
     'classes live in an importable synthetic module so that pickle can find them',
     'watchers whose callback is a method of an unrelated third object are not generated',
 ]
-REQUIRED = {'copies': 1200, 'divergence_ops': 5000, 'copies_with_subobject': 400, 'pickle_copies': 800, 'slot_only_subobject_dependency_cases': 100, 'copies_inside_trigger_callback': 60}
+REQUIRED = {'copies': 1200, 'divergence_ops': 5000, 'copies_with_subobject': 400, 'pickle_copies': 800, 'slot_only_subobject_dependency_cases': 100, 'copies_inside_trigger_callback': 60, 'private_method_watchers': 80}
 
 MOD = 'pvgen_c17'
 _st = {}
@@ -91,6 +91,13 @@ def setup(P):
 
         def on_a(self, *events):
             self.__dict__.setdefault('calls', []).append('on_a')
+
+        def __on_private(self, *events):
+            self.__dict__.setdefault('calls', []).append('on_private')
+
+        def watch_private(self):
+            # (a private callback: its attribute name is mangled with the class name)
+            self.param.watch(self.__on_private, ['a', 's'])
 
         def on_as(self, *events):
             self.__dict__.setdefault('calls', []).append('on_as')
@@ -237,6 +244,11 @@ def run_case(idx, rng, P, rep):
     for _ in range(rng.randint(0, P['maxlen'])):
         hist.append(state_op(o, 'pre'))
     mech = rng.choice(['deepcopy', 'pickle0', 'pickle1', 'pickle2', 'pickle3', 'pickle4', 'pickle5'])
+    if mech == 'deepcopy' and rng.random() < 0.6:
+        # (deepcopy only: Python itself cannot pickle a bound method whose name is mangled)
+        o.watch_private()
+        hist.append('watch-private-method')
+        rep.count('private_method_watchers')
     desc = dict(cls=cls.__name__, mechanism=mech, history=hist)
 
     def viol(key, msg):
@@ -326,7 +338,7 @@ def run_case(idx, rng, P, rep):
                            'a-same'])
         expect = []
         replaced = False
-        multi = ['on_as'] if 'watch-own-method-multi' in hist else []
+        multi = (['on_as'] if 'watch-own-method-multi' in hist else []) + (['on_private'] if 'watch-private-method' in hist else [])
         if kind == 'a':
             obj.a = tokv()
             expect = ['m_own'] + (['on_a'] if 'watch-own-method' in hist else []) + multi
@@ -389,7 +401,7 @@ def run_case(idx, rng, P, rep):
                  f'object: {diff}')
         got = obj.calls[n_calls:]
         if expect is not None:
-            expect = [e for e in expect if hasattr(cls, e)]
+            expect = [e for e in expect if hasattr(cls, e) or e == 'on_private']
         if replaced and (got.count('m_sub') != int(hasattr(cls, 'm_sub')) or got.count('m_deep') > 1 or got.count('m_subslot') > 1 or set(got) - {'m_sub', 'm_deep', 'm_subslot'}):
             viol(f'dependency-not-working-on-{side}/{kind}', f'{mech}: after {kind} on the {side} its dependent methods ran {got}, expected m_sub once '
                  f'and m_deep at most once')
